@@ -77,17 +77,17 @@ Record naming_ok (nm : naming) : Prop := mkNamingOk {
 Definition table_ok (nm : naming) (G : tyenv) : Prop :=
   forall k n p, pyname_in (g_naming G) k n = Some p -> p = nm_of nm k n.
 
-(** Names of the environment are of one kind only. *)
+(** A verification function is not also a constant (a call of it is written as a call of a
+    plain name). Arguments and loop variables may shadow any global, as in Python. *)
 Definition names_disjoint (G : tyenv) : Prop :=
-  (forall c, mem_text c (g_consts G) = true -> c <> s2l "self") /\
-  (forall f t, lookup f (g_fns G) = Some t -> f <> s2l "self" /\ mem_text f (g_consts G) = false) /\
-  (forall e ls, lookup e (g_enums G) = Some ls ->
-     e <> s2l "self" /\ mem_text e (g_consts G) = false /\ lookup e (g_fns G) = None).
+  forall f t, lookup f (g_fns G) = Some t -> mem_text f (g_consts G) = false.
 
-(** A loop variable [x] may be bound: its SDK name does not capture [that], the modules, a
-    function or another loop variable, and it is [len] only if [x] is. *)
+(** A loop variable [x] may be bound: its SDK name does not capture an argument ([that] for
+    an invariant), the modules, a function or another loop variable, and it is [len] only if
+    [x] is. *)
 Definition var_ok (nm : naming) (G : tyenv) (x : text) : Prop :=
-  nm_var nm x <> s2l "that" /\ nm_var nm x <> s2l "aas_types" /\ nm_var nm x <> s2l "aas_constants" /\
+  (forall a p, lookup a (g_args G) = Some p -> nm_var nm x = p -> x = a) /\
+  nm_var nm x <> s2l "aas_types" /\ nm_var nm x <> s2l "aas_constants" /\
   (forall f t, lookup f (g_fns G) = Some t -> nm_var nm x = nm_fn nm f -> x = f) /\
   (text_eqb (nm_var nm x) (s2l "len") = text_eqb x (s2l "len")) /\
   is_range (nm_var nm x) = false.
@@ -96,7 +96,8 @@ Definition var_ok (nm : naming) (G : tyenv) (x : text) : Prop :=
     capture the built-in of the generated [for ... in range(...)]). *)
 Definition range_free (nm : naming) (G : tyenv) : Prop :=
   (forall f t, lookup f (g_fns G) = Some t -> is_range (nm_fn nm f) = false) /\
-  (forall x, mem_text x (g_loopvars G) = true -> is_range (nm_var nm x) = false).
+  (forall x, mem_text x (g_loopvars G) = true -> is_range (nm_var nm x) = false) /\
+  (forall a p, lookup a (g_args G) = Some p -> is_range p = false).
 
 (** Variables bound by the quantifiers of an expression. *)
 Fixpoint bvars (e : expr) : list text :=
@@ -117,15 +118,18 @@ Fixpoint bvars (e : expr) : list text :=
 Record env_rel (nm : naming) (G : tyenv) (r r' : env) : Prop := mkEnvRel {
   er_vars : forall x, mem_text x (g_loopvars G) = true ->
       lookup (nm_var nm x) (vars r') = option_map (ren_value nm) (lookup x (vars r));
-  er_self : mem_text (s2l "self") (g_loopvars G) = false ->
-      lookup (s2l "that") (vars r') = option_map (ren_value nm) (lookup (s2l "self") (vars r));
+  er_args : forall a p, lookup a (g_args G) = Some p -> mem_text a (g_loopvars G) = false ->
+      lookup p (vars r') = option_map (ren_value nm) (lookup a (vars r));
   er_consts : forall c, mem_text c (g_consts G) = true -> mem_text c (g_loopvars G) = false ->
+      lookup c (g_args G) = None ->
       exists oid cl cfs v, lookup (s2l "aas_constants") (vars r') = Some (VObj oid cl cfs) /\
                            lookup c (vars r) = Some v /\
                            lookup (nm_const nm c) cfs = Some (ren_value nm v);
   er_fns : forall f t, lookup f (g_fns G) = Some t -> mem_text f (g_loopvars G) = false ->
+      lookup f (g_args G) = None ->
       lookup (nm_fn nm f) (vars r') = option_map (ren_value nm) (lookup f (vars r));
   er_enums : forall e ls, lookup e (g_enums G) = Some ls -> mem_text e (g_loopvars G) = false ->
+      lookup e (g_args G) = None ->
       exists oid cl efs v, lookup (s2l "aas_types") (vars r') = Some (VObj oid cl efs) /\
                            lookup e (vars r) = Some v /\
                            lookup (nm_enum nm e) efs = Some (ren_value nm v);
@@ -163,11 +167,11 @@ Definition rename (G : tyenv) (r : env) : env :=
          :: (s2l "aas_constants", module_of (g_consts G) r) :: vars r)
         (fn_impl r) (meth_impl r) (enum_lits r).
 
-(** The meta-model environment fits the type environment: [self], the constants and the
-    enumerations are bound, we are outside any quantifier, and no function is called like
+(** The meta-model environment fits the type environment of an invariant ([self] is the only
+    argument): [self], the constants and the enumerations are bound, we are outside any quantifier, and no function is called like
     [that] or the modules. *)
 Definition env_fits (G : tyenv) (r : env) : Prop :=
-  g_loopvars G = [] /\
+  g_loopvars G = [] /\ g_args G = [(s2l "self", s2l "that")] /\
   (exists v, lookup (s2l "self") (vars r) = Some v) /\
   (forall c, mem_text c (g_consts G) = true -> exists v, lookup c (vars r) = Some v) /\
   (forall e ls, lookup e (g_enums G) = Some ls -> exists v, lookup e (vars r) = Some v) /\
